@@ -123,6 +123,8 @@ Proof.
   - pose proof (failed_draw_glob gstate value req draw I t (tickL gstate value w) (env (ticks w) g) F) as H.
     destruct (draw_glob gstate value req draw I t (tickL gstate value w) (env (ticks w) g)) as [w1 g1]. exact H.
   - specialize (IHsk [peval e e0] w g F). destruct (prunG env I sk [peval e e0] w g) as [[e1 w1] g1]. exact IHsk.
+  - unfold seed_from. destruct (crs (VInt (as_seed I t (hist w))) (tickL gstate value w)) as [c1 w1] eqn:E. simpl.
+    pose proof (failed_crs gstate value seed (VInt (as_seed I t (hist w))) (tickL gstate value w) F) as H. now rewrite E in H.
 Qed.
 
 Lemma ploop_keeps0 : forall env (I : interp) body t,
@@ -151,6 +153,7 @@ Proof.
     destruct (draw_glob gstate value req draw I t (tickL gstate value w) (env (ticks w) g)) as [w1 g1]. reflexivity.
   - destruct (draw_glob gstate value req draw I t (tickL gstate value w) (env (ticks w) g)) as [w1 g1]. reflexivity.
   - destruct (prunG env I sk [peval e e0] w g) as [[e1 w1] g1]. reflexivity.
+  - destruct x; [discriminate|]. destruct (seed_from gstate value req seed I t w) as [c1 w1]. simpl. destruct e0; reflexivity.
 Qed.
 
 Lemma pmust_check_fails : forall env (I : interp) sk, pmust_check sk = true ->
@@ -172,6 +175,7 @@ Proof.
   - (* PCall *)
     destruct e as [[|x0]| | |]; try discriminate. simpl. rewrite H0.
     specialize (IHsk M s [VInt s] w g Hs eq_refl). destruct (prunG env I sk [VInt s] w g) as [[e1 w1] g1]. exact IHsk.
+  - (* PFail *) reflexivity.
 Qed.
 
 Theorem pinvalid_seed_rejected : forall (I : interp) sk s, pmust_check sk = true -> seed_ok s = false ->
@@ -199,3 +203,93 @@ Qed.
 (* draw-freeness and the embedding *)
 Lemma pdraw_free_embed : forall sk, pdraw_free (embed sk) = draw_free sk.
 Proof. induction sk; simpl; auto; try (rewrite IHsk1, IHsk2; reflexivity). Qed.
+
+(* ---------------------------------------------------------------- the two analyses coincide on embeddings *)
+Lemma wjoin_idem : forall a, wjoin a a = a.
+Proof. intros []; reflexivity. Qed.
+
+Lemma ale_intro : forall A B, (forall x, wle (alook x A) (alook x B) = true) -> ale A B = true.
+Proof.
+  intros A B H. unfold ale. apply andb_true_iff. split.
+  - apply forallb_forall. intros x _. apply H.
+  - specialize (H (Nat.max (length (fst A)) (length (fst B)))). unfold alook in H.
+    rewrite !nth_overflow in H by lia. exact H.
+Qed.
+
+Lemma ale_var1 : forall A A1, (forall x, x <> 1 -> alook x A1 = alook x A) -> ale A1 A = wle (alook 1 A1) (alook 1 A).
+Proof.
+  intros A A1 H. destruct (wle (alook 1 A1) (alook 1 A)) eqn:W.
+  - apply ale_intro. intro x. destruct (Nat.eq_dec x 1) as [->|N]; [exact W|]. rewrite (H x N). apply wle_refl.
+  - destruct (ale A1 A) eqn:E; [|reflexivity]. pose proof (ale_look _ _ E 1) as X. congruence.
+Qed.
+
+Lemma aeval_embed_arg : forall a A, aeval (embed_arg a) A = warg a (alook 0 A) (alook 1 A).
+Proof. intros [] A; reflexivity. Qed.
+
+Lemma pgf_embed : forall sk A,
+  match gfw sk (alook 0 A) (alook 1 A) with
+  | Some c' => exists A', pgf (embed sk) A = Some A' /\ alook 1 A' = c' /\ forall x, x <> 1 -> alook x A' = alook x A
+  | None => pgf (embed sk) A = None
+  end.
+Proof.
+  induction sk; intro A; simpl.
+  - (* Skip *) exists A. repeat split; auto.
+  - (* Seq *)
+    specialize (IHsk1 A). destruct (gfw sk1 (alook 0 A) (alook 1 A)) as [c1|].
+    + destruct IHsk1 as (A1 & E1 & L1 & K1). rewrite E1.
+      specialize (IHsk2 A1). rewrite L1, (K1 0) in IHsk2 by lia.
+      destruct (gfw sk2 (alook 0 A) c1) as [c2|].
+      * destruct IHsk2 as (A2 & E2 & L2 & K2). exists A2. repeat split; auto. intros x N. rewrite K2, K1; auto.
+      * exact IHsk2.
+    + now rewrite IHsk1.
+  - (* Branch *)
+    specialize (IHsk1 A). specialize (IHsk2 A).
+    destruct (gfw sk1 (alook 0 A) (alook 1 A)) as [c1|].
+    + destruct IHsk1 as (A1 & E1 & L1 & K1). rewrite E1.
+      destruct (gfw sk2 (alook 0 A) (alook 1 A)) as [c2|].
+      * destruct IHsk2 as (A2 & E2 & L2 & K2). rewrite E2. exists (ajoin A1 A2). split; [reflexivity|]. split.
+        -- rewrite alook_ajoin. now rewrite L1, L2.
+        -- intros x N. rewrite alook_ajoin, K1, K2 by assumption. apply wjoin_idem.
+      * now rewrite IHsk2.
+    + now rewrite IHsk1.
+  - (* For *)
+    pose proof (IHsk A) as H1. destruct (gfw sk (alook 0 A) (alook 1 A)) as [c1|].
+    + destruct H1 as (A1 & E1 & L1 & K1). rewrite E1. rewrite (ale_var1 A A1 K1), L1.
+      destruct (wle c1 (alook 1 A)) eqn:W.
+      * exists A. repeat split; auto.
+      * cbv zeta.
+        assert (B0 : alook 0 (ajoin A A1) = alook 0 A) by (rewrite alook_ajoin, (K1 0) by lia; apply wjoin_idem).
+        assert (B1 : alook 1 (ajoin A A1) = WUnsafe).
+        { rewrite alook_ajoin, L1. destruct c1, (alook 1 A); simpl in *; try reflexivity; discriminate. }
+        pose proof (IHsk (ajoin A A1)) as H2. rewrite B0, B1 in H2.
+        destruct (gfw sk (alook 0 A) WUnsafe) as [c2|].
+        -- destruct H2 as (A2 & E2 & L2 & K2). rewrite E2. rewrite (ale_var1 (ajoin A A1) A2 K2), B1, wle_unsafe.
+           exists (ajoin A A1). split; [reflexivity|]. split; [exact B1|].
+           intros x N. rewrite alook_ajoin, (K1 x N). apply wjoin_idem.
+        -- now rewrite H2.
+    + now rewrite H1.
+  - (* Check *)
+    exists (aset 1 (alook 0 A) A). split; [reflexivity|]. split; [apply alook_aset_eq|].
+    intros x N. apply alook_aset_neq. congruence.
+  - (* Draw *)
+    destruct (alook 1 A) eqn:L; [exists A; repeat split; auto | reflexivity].
+  - (* DrawNp *) reflexivity.
+  - (* Call *)
+    rewrite <- (aeval_embed_arg a A).
+    specialize (IHsk ([aeval (embed_arg a) A], WSafe)).
+    change (alook 0 ([aeval (embed_arg a) A], WSafe)) with (aeval (embed_arg a) A) in IHsk.
+    change (alook 1 ([aeval (embed_arg a) A], WSafe)) with WSafe in IHsk.
+    destruct (gfw sk (aeval (embed_arg a) A) WSafe) as [c1|].
+    + destruct IHsk as (A1 & E1 & _). rewrite E1. exists A. repeat split; auto.
+    + now rewrite IHsk.
+Qed.
+
+Theorem pglobal_free_embed : forall sk, pglobal_free (embed sk) = global_free_w sk.
+Proof.
+  intro sk. unfold pglobal_free, global_free_w.
+  pose proof (pgf_embed sk ([WSafe], WSafe)) as H.
+  change (alook 0 ([WSafe], WSafe)) with WSafe in H. change (alook 1 ([WSafe], WSafe)) with WSafe in H.
+  destruct (gfw sk WSafe WSafe) as [c|].
+  - destruct H as (A' & E & _). now rewrite E.
+  - now rewrite H.
+Qed.
